@@ -327,6 +327,10 @@ def pycoin_sign(built, tx, mech, key_idxs, hash_type=None, idx_set=None, scripts
             # hardened steps cannot be derived from the public node; the others are registered the way keychain_test does
             kc.add_key_paths(master.public_copy(), [p for p in paths if "H" not in p])
             kc.add_key_paths(master, [p for p in paths if "H" in p])
+        if (forms >> 6) & 1:
+            # the caller also holds the masters' own keys as plain (non-hierarchical) keys and adds those first: the same
+            # secret then arrives twice, once without and once with its derivation structure
+            kc.add_secrets([net.keys.private(secret_exponent=mk.secret_exponent()) for mk in masters])
         kc.add_secrets(masters)
         kc.add_secrets([net.keys.private(secret_exponent=RING_D[k]) for k in key_idxs if k in set(uncompressed)])
         kc.add_p2s_scripts(_as_form(scripts, f_scripts))
